@@ -62,8 +62,12 @@ func applyRef(srv *miniredis.Server, cmds []srcCmd, cfg *e2eCfg, upTo int64) {
 		if dropped {
 			continue
 		}
-		if ss.DB != cur {
-			ss.Do([][]byte{[]byte("select"), []byte(strconv.Itoa(cur))})
+		eff := cur
+		if cfg.TargetDB != -1 {
+			eff = cfg.TargetDB // everything lands in the fixed target database
+		}
+		if ss.DB != eff {
+			ss.Do([][]byte{[]byte("select"), []byte(strconv.Itoa(eff))})
 		}
 		ss.Do(append([][]byte{[]byte(name)}, args...))
 	}
@@ -139,11 +143,17 @@ func allowedEnds(cmds []srcCmd, cfg *e2eCfg) map[int64]endInfo {
 	cur := 0
 	for _, c := range cmds {
 		name := strings.ToLower(c.Name)
+		eff := func() int {
+			if cfg.TargetDB != -1 {
+				return cfg.TargetDB
+			}
+			return cur
+		}
 		if name == "select" {
 			n, _ := strconv.Atoi(string(c.Args[0]))
 			cur = n
 			if !ref.DBExcluded(cur) {
-				out[c.End] = endInfo{cur, name}
+				out[c.End] = endInfo{eff(), name}
 			}
 			continue
 		}
@@ -156,7 +166,7 @@ func allowedEnds(cmds []srcCmd, cfg *e2eCfg) map[int64]endInfo {
 		if _, dropped := ref.Rewrite(name, c.Args); dropped {
 			continue
 		}
-		out[c.End] = endInfo{cur, name}
+		out[c.End] = endInfo{eff(), name}
 	}
 	return out
 }
@@ -237,7 +247,11 @@ func runC04(r resIface, c *c04case, rng *prng.R, nRestarts int) {
 		if c.Cfg.ref().DBExcluded(int(k.DB)) || c.Cfg.ref().KeyExcluded(k.Key) {
 			continue // the full phase applies the same filters
 		}
-		base.Put(int(k.DB), string(k.Key), miniredis.CloneValue(k.Val), 0)
+		bdb := int(k.DB)
+		if c.Cfg.TargetDB != -1 {
+			bdb = c.Cfg.TargetDB
+		}
+		base.Put(bdb, string(k.Key), miniredis.CloneValue(k.Val), 0)
 	}
 	S0 := base.Snapshot()
 	// final state of the uninterrupted run vs. the reference history
@@ -517,14 +531,22 @@ type c04extra struct {
 }
 
 func genC04cfg(rng *prng.R, idx int) e2eCfg {
-	c := e2eCfg{Resume: true, TargetDB: -1, SenderCount: uint([]int{1, 2, 5, 1024}[idx%4]), SenderSize: uint64(rng.Pick(64, 65535, 1<<30-1)), Parallel: 2, Metric: true}
-	switch idx / 4 % 4 {
+	c := e2eCfg{Resume: true, TargetDB: -1, SenderCount: uint([]int{1, 2, 5, 1024}[idx%10%4]), SenderSize: uint64(rng.Pick(64, 65535, 1<<30-1)), Parallel: 2, Metric: true}
+	switch idx % 10 / 4 % 4 {
 	case 1:
 		c.DBBlack = []string{"1"}
 	case 2:
 		c.KeyBlack = []string{"no:"}
 	case 3:
 		c.DBWhite = []string{"0", "2", "3"}
+	}
+	switch idx % 10 {
+	case 8: // a fixed target database that the database list itself excludes on the source side
+		c.TargetDB = 5
+		c.DBBlack, c.DBWhite, c.KeyBlack = nil, []string{"0", "2"}, nil
+	case 9:
+		c.TargetDB = 1
+		c.DBBlack, c.DBWhite, c.KeyBlack = []string{"1"}, nil, nil
 	}
 	return c
 }
@@ -580,7 +602,7 @@ func c04(c *wk.Ctx) {
 	if wk.ReplayOne(c, "c04hist", func(idx int) interface{} { return c04extra{CfgIdx: idx / 100000} }, onDeath) {
 		return
 	}
-	ncfg := c.N(8, 16)
+	ncfg := c.N(10, 20)
 	per := c.N(2, 36)
 	// short-lived children (<= 4 histories each): every history leaves its fakes, byte logs and the syncers of
 	// its restarts behind, and the race build multiplies that
